@@ -324,3 +324,143 @@ def option_forwarding_rule(m, rid, module="fparser.common.readfortran", base_nam
                        "readers of that class silently run with the base default, whatever the caller asked for"
                        % (c["name"], p_, base_name, "passes `%s` instead" % A.text(arg)[:30] if arg is not None else "argument missing"), m.loc(f, call))
     return r
+
+
+# =================================================================================================
+# the reader: a line that may be None (end of input) is dereferenced only under a test, or the failure is absorbed
+# =================================================================================================
+class NullLineClient(F.Client):
+    track = {"line"}
+
+    def __init__(self):
+        self.bad = []
+
+    def call_raises(self, call, st):
+        return ()
+
+    def call_value(self, call, st):
+        if A.text(call.func) in ("get_single_line", "self.get_single_line", "self.get_next_line", "get_next_line"):
+            return frozenset([("c", None), ("truthy",), ("c", "")])
+        return F.TOP
+
+    def on_stmt(self, stmt, st):
+        from rules import optional_rules as O
+        from rules import delim_rules as D
+        if ("c", None) not in st.get("line"):
+            return
+        for fld in ("value", "test", "iter"):
+            root = getattr(stmt, fld, None)
+            if not isinstance(root, ast.AST):
+                continue
+            P = A.parents(root)
+            for n in ast.walk(root):
+                if isinstance(n, (ast.Attribute, ast.Subscript)) and isinstance(n.value, ast.Name) and n.value.id == "line" \
+                        and isinstance(n.ctx, ast.Load) and not O.proves_not_none(D.facts_at(root, n, P), "line"):
+                    self.bad.append((n, stmt))
+
+
+def reader_none_rule(m, rid):
+    RF_ = "fparser.common.readfortran"
+    r = RuleResult(rid, "where the reader dereferences a line that may be None (end of input reached inside a continuation), the resulting "
+                        "AttributeError is absorbed by the handler around item construction in next() -- it never escapes the parser")
+    r.floor = 1
+    k = m.key("FortranReaderBase", RF_)
+    sites = []
+    for name in ("get_source_item", "get_single_line", "get_next_line", "_next", "handle_multilines"):
+        f = m.method(k, name)
+        if f is None:
+            continue
+        cl = NullLineClient()
+        F.Flow(m, f, cl).run(F.State({}))
+        seen = set()
+        for n, stmt in cl.bad:
+            key = (n.lineno, A.text(n))
+            if key not in seen:
+                seen.add(key)
+                sites.append((f, n, stmt))
+    nx = m.method(k, "next")
+    caught = set()
+    for n in A.body_nodes(nx.node):
+        if isinstance(n, ast.Try) and any(A.text(c.func) in ("self._next",) for s_ in n.body for c in ast.walk(s_) if isinstance(c, ast.Call)):
+            for h in n.handlers:
+                if h.type is None:
+                    caught.add("BaseException")
+                elif isinstance(h.type, ast.Tuple):
+                    caught |= {A.text(e) for e in h.type.elts}
+                else:
+                    caught.add(A.text(h.type))
+    covers = bool(caught & {"Exception", "BaseException", "AttributeError"})
+    r.notes.append("possible None dereferences in the reader: %s; next() catches %s" % (
+        ["%s:%s" % (f.qualname.split(".")[-1], A.text(n)[:30]) for f, n, s_ in sites], sorted(caught)))
+    for f, n, stmt in sites:
+        r.instances += 1
+        r.ob(covers, "%s: `%s` may be None.%s -- absorbed by next()" % (f.qualname, A.text(n.value), getattr(n, "attr", "[]")))
+        if not covers:
+            r.fail("%s|none-deref|%s" % (f.qualname, A.text(n)[:30]), "%s dereferences `%s` at `%s` although it can be None (the source ended inside a "
+                   "backslash/continuation sequence), and next() no longer absorbs the AttributeError (it catches %s): the exception "
+                   "escapes from the parser" % (f.qualname, A.text(n.value), A.text(stmt)[:50], sorted(caught)), m.loc(f, n))
+    if not sites:
+        r.instances += 1
+        r.ob(True, "no dereference of a possibly-None line in the reader")
+    return r
+
+
+def inverse_map_lookup_rule(m, rid):
+    r = RuleResult(rid, "the inverse replace map substitutes only keys it holds (text that merely looks like a placeholder is left alone): every "
+                        "`self[key]` is under `key in self`")
+    r.floor = 1
+    from rules import delim_rules as D
+    k = m.key("StringReplaceDict", "fparser.common.splitline")
+    f = m.method(k, "__call__")
+    if f is None:
+        r.error("StringReplaceDict.__call__ vanished")
+        return r
+    P = A.parents(f.node)
+    subs = [n for n in ast.walk(f.node) if isinstance(n, ast.Subscript) and A.text(n.value) == "self" and isinstance(n.ctx, ast.Load)]
+    if not subs and not any(isinstance(c, ast.Call) and A.text(c.func) in ("self.get",) for c in ast.walk(f.node)):
+        r.error("StringReplaceDict.__call__: no lookup in the map found (anchor changed)")
+        return r
+    for n in subs:
+        r.instances += 1
+        key = A.text(n.slice)
+        facts = []
+        for t, pol in D.facts_at(f.node, n, P):
+            facts += D.expand(t, pol)
+        ok = any(pol and isinstance(t, ast.Compare) and len(t.ops) == 1 and isinstance(t.ops[0], ast.In) and A.text(t.left) == key
+                 and A.text(t.comparators[0]) == "self" for t, pol in facts)
+        r.ob(ok, "StringReplaceDict.__call__: `%s` under `%s in self`" % (A.text(n), key))
+        if not ok:
+            r.fail("StringReplaceDict.__call__|unguarded-lookup", "StringReplaceDict.__call__ looks up `%s` without testing that the key is in the map: "
+                   "source text that merely looks like a placeholder (a variable named F2PY_EXPR_TUPLE_5) raises KeyError, which escapes the "
+                   "parser" % A.text(n), m.loc(f, n))
+    # the same where the map is built: symbols FOUND in the text (findall) are looked up only when they are keys
+    g = m.need_func("fparser.common.splitline", "string_replace_map")
+    Pg = A.parents(g.node)
+    found_vars = {}
+    for n in A.body_nodes(g.node):
+        if isinstance(n, ast.Assign) and isinstance(n.value, ast.Call) and "findall" in A.text(n.value.func):
+            for t in n.targets:
+                if isinstance(t, ast.Name):
+                    found_vars[t.id] = n
+    loop_vars = {}
+    for n in A.body_nodes(g.node):
+        if isinstance(n, ast.For) and isinstance(n.target, ast.Name):
+            it = n.iter
+            if (isinstance(it, ast.Name) and it.id in found_vars) or (isinstance(it, ast.Call) and "findall" in A.text(it.func)) or \
+                    (isinstance(it, ast.Call) and A.dotted(it.func) in ("set", "sorted") and it.args and isinstance(it.args[0], ast.Name) and it.args[0].id in found_vars):
+                loop_vars[n.target.id] = n
+    for n in A.body_nodes(g.node):
+        if isinstance(n, ast.Subscript) and isinstance(n.ctx, ast.Load) and isinstance(n.slice, ast.Name) and n.slice.id in loop_vars:
+            r.instances += 1
+            key, mp = n.slice.id, A.text(n.value)
+            facts = []
+            for t, pol in D.facts_at(g.node, n, Pg):
+                facts += D.expand(t, pol)
+            ok = any(isinstance(t, ast.Compare) and len(t.ops) == 1 and A.text(t.left) == key and A.text(t.comparators[0]) == mp and
+                     ((isinstance(t.ops[0], ast.In) and pol) or (isinstance(t.ops[0], ast.NotIn) and not pol)) for t, pol in facts)
+            r.ob(ok, "string_replace_map: `%s` under `%s in %s`" % (A.text(n), key, mp))
+            if not ok:
+                r.fail("string_replace_map|unguarded-lookup|%s" % key, "string_replace_map looks up `%s` for every placeholder-like symbol found in a "
+                       "parenthesised group without testing that it is a key of the map: `x = (F2PY_EXPR_TUPLE_9 + 1)` (a legal identifier) raises "
+                       "KeyError, which escapes the parser" % A.text(n), m.loc(g, n))
+    return r
